@@ -9,7 +9,8 @@
 (*   apalache-mc check --init=IndInit --inv=IndInv   --length=1   (step)   *)
 (*   apalache-mc check --init=Init    --inv=IndInv   --length=0   (base)   *)
 (*   apalache-mc check --init=IndInit --inv=IssueOk  --length=1   (action) *)
-(*   tlc SeidAlloc (N = 5): same invariants on all reachable states        *)
+(*   tlc MC_SeidAlloc (N = 5): same invariants on all reachable states     *)
+(*   tlapm SeidAllocProof.tla: IndInv inductive and IssueOk for EVERY N    *)
 (*                                                                         *)
 (* Upf.tla uses exactly these two operations on its variables slots/free   *)
 (* (MC_Upf checks AllocInv, the same predicate, on every state of the      *)
@@ -54,7 +55,7 @@ Next == New \/ \E i \in 1..N : Del(i)
 
 \* ------------------------------------------------------------------ invariants
 TypeOK ==
-  /\ Len(slots) <= N /\ Len(free) <= Len(slots)
+  /\ Len(slots) <= N
   /\ last \in 0..N
 IndInv ==
   /\ TypeOK
@@ -62,6 +63,9 @@ IndInv ==
   /\ \A j, k \in DOMAIN free : j # k => free[j] # free[k]                          \* each of them once
   /\ \A i \in DOMAIN slots : ~slots[i] => \E k \in DOMAIN free : free[k] = i       \* no SEID is lost
   /\ last # 0 => last \in DOMAIN slots /\ slots[last]
+
+\* a consequence of IndInv (pigeonhole: the free list holds distinct dead slots), not needed for the induction
+Bounded == Len(free) <= Len(slots)
 
 \* C04, the issuing part, as a property of every step
 IssueOk ==
